@@ -1542,9 +1542,16 @@ fn main() {
         .collect();
     ctx.extra("field_catalogue", json!(cat));
 
+    // For sensitivity experiments only: VERIF_C04_ONLY=<sub-check>[,<sub-check>] restricts the run.
+    let only: Option<Vec<String>> = std::env::var("VERIF_C04_ONLY").ok().map(|s| s.split(',').map(|x| x.trim().to_string()).collect());
+    let on = |name: &str| only.as_ref().map(|o| o.iter().any(|x| x == name)).unwrap_or(true);
+    if only.is_some() {
+        ctx.extra("restricted_to_sub_checks", json!(only));
+    }
+
     // 1. regression: fixed vectors + boundary transactions
     let regs = regression_list();
-    {
+    if on("regression-vectors") {
         let regs2 = regression_list();
         ctx.run_enum("regression-vectors", regs.len() as u64, true, move |i| check_regression(&regs[i as usize]), move |i| describe_reg(&regs2[i as usize]));
     }
@@ -1553,7 +1560,9 @@ fn main() {
     ctx.require_min_count("regression-vectors", "zip243-vector", 5);
 
     // 2. reference differential
-    ctx.run_prop_with("reference", arb_case, tier.pick(10_000, 400_000), 300, check_reference);
+    if on("reference") {
+        ctx.run_prop_with("reference", arb_case, tier.pick(10_000, 400_000), 300, check_reference);
+    }
     for (l, f) in [
         ("v5", 0.25),
         ("v6", 0.20),
@@ -1579,12 +1588,16 @@ fn main() {
     ] {
         ctx.require_label_fraction("reference", l, f);
     }
-    ctx.run_prop_with("reference-repo-arb-tx", arb_repo_case, tier.pick(400, 12_000), 40, check_reference);
+    if on("reference-repo-arb-tx") {
+        ctx.run_prop_with("reference-repo-arb-tx", arb_repo_case, tier.pick(400, 12_000), 40, check_reference);
+    }
     ctx.require_min_count("reference-repo-arb-tx", "v5", tier.pick(60, 1_500));
     ctx.require_min_count("reference-repo-arb-tx", "v6", tier.pick(15, 500));
 
     // 3. metamorphic
-    ctx.run_prop_with("metamorphic", arb_case, tier.pick(3_500, 105_000), 200, check_metamorphic);
+    if on("metamorphic") {
+        ctx.run_prop_with("metamorphic", arb_case, tier.pick(3_500, 105_000), 200, check_metamorphic);
+    }
     for (l, f) in [("v5", 0.25), ("v6", 0.20), ("v4", 0.12), ("v3", 0.03), ("transparent-inputs", 0.35), ("two-or-more-inputs", 0.20), ("single-index-beyond-outputs", 0.10)] {
         ctx.require_label_fraction("metamorphic", l, f);
     }
